@@ -634,6 +634,21 @@ fn gen_int<T: IntT>(rng: &mut Rng) -> T {
     }
     let b = rng.below(T::BITS as u64 + 1) as u32;
     let mut raw = if b == 0 { 0 } else { rand128(rng) >> (128 - b) };
+    if rng.chance(1, 6) {
+        // digit-group structure: the low g decimal digits all nines / all zeros / one below a round value
+        let g = 1 + rng.below(20) as u32;
+        let pg = 10u128.pow(g);
+        let h = raw / pg;
+        let cand = match rng.below(3) {
+            0 => h * pg + (pg - 1),
+            1 => h * pg,
+            _ => (h * pg).wrapping_sub(1),
+        };
+        let limit = if b == 0 { 0 } else { u128::MAX >> (128 - b) };
+        if cand <= limit {
+            raw = cand;
+        }
+    }
     if rng.chance(1, 2) {
         raw = raw.wrapping_neg();
     }
@@ -652,6 +667,36 @@ fn specials<T: IntT>() -> Vec<T> {
         let q = 1u128 << k;
         mags.extend_from_slice(&[q - 1, q, q.wrapping_add(1)]);
     }
+    // digit-group boundaries: h * 10^g - 1 (g trailing nines), h * 10^g, h * 10^g + 1 with h anchored at the largest value
+    // of every integer width (a renderer that cuts the value into groups of g digits has its carries exactly there)
+    let maxes: Vec<u128> = [7u32, 8, 15, 16, 31, 32, 63, 64, 127].iter().map(|&b| (1u128 << b) - 1).chain([u128::MAX]).collect();
+    for &mx in &maxes {
+        let mut pg = 10u128;
+        for _g in 1..=38 {
+            let hmax = mx / pg;
+            if hmax == 0 {
+                break;
+            }
+            for h in [hmax, hmax.saturating_sub(1), hmax / 2 + 1, hmax / 3 + 1, 1, 7] {
+                if h == 0 || h > hmax {
+                    continue;
+                }
+                let v = h * pg;
+                mags.extend_from_slice(&[v - 1, v, v.saturating_add(1), v.saturating_add(pg / 10 * 9)]);
+                if let Some(w) = v.checked_add(pg - 1) {
+                    if w <= mx {
+                        mags.push(w); // the largest value with this h
+                    }
+                }
+            }
+            pg = match pg.checked_mul(10) {
+                Some(x) => x,
+                None => break,
+            };
+        }
+    }
+    mags.sort_unstable();
+    mags.dedup();
     let mut out = Vec::new();
     for &m in &mags {
         for neg in [false, true] {
